@@ -26,7 +26,7 @@ TrueTypeCase(e, F, S) ==
                     ELSE GlyphProblems(F, S, c, g, m) : i \in 1..Len(e.chars)})
 CaseProblems(e) ==
   IF ~e.ok THEN {[problem |-> "subsetting failed: " \o e.err]}
-  ELSE LET F == Font(e.orig)  S == Font(e.subset) IN
+  ELSE LET F == Font(FileSrc(e.orig))  S == Font(FileSrc(e.subset)) IN
        IF F.version \in {T_0100, T_true} THEN TrueTypeCase(e, F, S) ELSE CffCase(e, F, S)
 TSub == /\ IsEvent("subset")
         /\ LET p == CaseProblems(Rec[l]) IN IF p = {} THEN TRUE ELSE PrintT(<<"PROBLEMS", ToJson([idx |-> l, problems |-> p])>>) /\ FALSE
